@@ -119,6 +119,14 @@ func (k *Keeper) EthereumTx(goCtx context.Context, msg *evmtypes.MsgEthereumTx) 
 	receipt.GasUsed = response.GasUsed
 	receipt.BlockNumber = big.NewInt(ctx.BlockHeight())
 	receipt.TransactionIndex = uint(txIndex)
+	{
+		// The log index is not a consensus field so it was not included in the marshalled receipt.
+		// Logs are numbered consecutively across the block, continue from the logs of the previous txs.
+		startLogIndex := k.GetCumulativeLogCountTransient(ctx, true)
+		for i, log := range receipt.Logs {
+			log.Index = uint(startLogIndex) + uint(i)
+		}
+	}
 
 	receiptSdkEvent, err := evmtypes.GetSdkEventForReceipt(
 		receipt, // receipt
